@@ -2,6 +2,7 @@ package zsim
 
 import (
 	"fmt"
+	"os"
 	"path/filepath"
 	"time"
 )
@@ -93,6 +94,11 @@ func genC12(seed uint64, tier string) *Plan {
 	o.Crosstab = false // (two recorded C10 findings)
 	o.DataSpan = span
 	p.Ops = append(p.Ops, Op{K: "check", Strs: genBattery(r, p, u, o, r.Range(2, 5))})
+	if r.Bool(0.3) || os.Getenv("ZSIM_FORCE_REAL") != "" {
+		// world CR: whole servers over the simulated connection network
+		p.Cfg.Extra = map[string]int64{"real": 1}
+		p.World = "CR"
+	}
 	return p
 }
 
@@ -223,6 +229,14 @@ func execC12(e *Env, p *Plan) error {
 				v.Detail = fmt.Sprintf("5 simulated minutes after all faults stopped [%s]: %s", faultLog(e), v.Detail)
 				return v
 			}
+			if c.Real {
+				// the query feed of a follower uses a connection of its own, which
+				// comes back on its own back-off schedule: the same bound applies
+				if v := waitForQueryFeeds(e, c, p, deadline); v != nil {
+					v.Detail = fmt.Sprintf("[%s] %s", faultLog(e), v.Detail)
+					return v
+				}
+			}
 			if v := compareClusterQueries(e, c, d, op.Strs, "cluster-differs-after-faults"); v != nil {
 				v.Detail = fmt.Sprintf("[%s] %s", faultLog(e), v.Detail)
 				return v
@@ -244,4 +258,32 @@ func faultLog(e *Env) string {
 		}
 	}
 	return s
+}
+
+// waitForQueryFeeds polls every live leader with a cheap query until every
+// partition answers, or the liveness bound passes.
+func waitForQueryFeeds(e *Env, c *Cluster, p *Plan, deadline time.Time) *Violation {
+	sql := "SELECT _points FROM " + p.Tables[0].Name + " GROUP BY _"
+	for {
+		var last string
+		for _, l := range c.Leaders {
+			if !l.Up {
+				continue
+			}
+			q := l.N.Query(sql, QOpts{IncludeMem: true})
+			if q.Err != nil {
+				last = fmt.Sprintf("%s: %v", l.Name, q.Err)
+			} else if q.Stats != nil && q.Stats.NumSuccessfulPartitions != q.Stats.NumPartitions {
+				last = fmt.Sprintf("%s: %d of %d partitions answer (missing %v)", l.Name, q.Stats.NumSuccessfulPartitions, q.Stats.NumPartitions, q.Stats.MissingPartitions)
+			}
+		}
+		if last == "" {
+			return nil
+		}
+		if time.Now().After(deadline) {
+			return &Violation{"query-feed-not-restored", fmt.Sprintf("5 simulated minutes after all faults stopped queries are still not answered by every partition: %s", last)}
+		}
+		e.Count("probe.waited-for-query-feed")
+		e.Sleep(5 * time.Second)
+	}
 }
